@@ -838,6 +838,46 @@ pub fn run(o: &Opts) -> i32 {
     let mut modelled: BTreeSet<String> = BTreeSet::new();
     let mut unprobed = vec![];
 
+    // ---- (0) the variable-length integer itself: range check + encoding of length headers, decoding of raw bytes ----------
+    {
+        use mls_rs::mls_rs_codec::{MlsDecode, MlsEncode, VarInt};
+        let mut ns: Vec<u32> = vec![0, 1, 62, 63, 64, 65, 16382, 16383, 16384, 16385, (1 << 30) - 2, (1 << 30) - 1, 1 << 30, (1 << 30) + 1, u32::MAX - 1, u32::MAX];
+        for _ in 0..200 {
+            let bits = rng.below(33);
+            ns.push(if bits == 0 { 0 } else { (rng.below(1u64 << bits) as u32) | (1u32 << (bits - 1).min(31)) });
+        }
+        for n in ns {
+            let ans = match VarInt::try_from(n) {
+                Ok(v) => v.mls_encode_to_vec().map(|b| hex(&b)).unwrap_or("err".into()),
+                Err(_) => "err".into(),
+            };
+            qa.put(&format!("vi {n}"), &ans);
+        }
+        let mut raws: Vec<Vec<u8>> = vec![vec![0x3f], vec![0x40, 0x3f], vec![0x40, 0x40], vec![0x7f, 0xff], vec![0x80, 0, 0x3f, 0xff], vec![0x80, 0, 0x40, 0], vec![0xbf, 0xff, 0xff, 0xff], vec![0xc0], vec![0xff, 0xff, 0xff, 0xff], vec![0x7f], vec![0x80, 0, 0]];
+        for _ in 0..300 {
+            let len = 1 + rng.below(5) as usize;
+            let mut b = rng.bytes(len);
+            if rng.chance(1, 2) {
+                // bias towards short values in long encodings (minimum-length rule)
+                for x in b.iter_mut().skip(1).take(2) {
+                    if rng.chance(1, 2) {
+                        *x = 0;
+                    }
+                }
+                b[0] &= 0xc0 | (rng.below(2) as u8);
+            }
+            raws.push(b);
+        }
+        for b in raws {
+            let mut rd: &[u8] = &b;
+            let ans = match VarInt::mls_decode(&mut rd) {
+                Ok(v) => format!("{} {}", u32::from(v), b.len() - rd.len()),
+                Err(_) => "err".into(),
+            };
+            qa.put(&format!("vd {}", hex(&b)), &ans);
+        }
+    }
+
     // ---- (1) types with a generated schema: implementation vs model --------------------------------------------------
     for (name, refined, sch) in &schemas {
         if probe(name, &[]).is_none() {
